@@ -7,7 +7,7 @@ def run(ck):
     # R1: PANIC over decap (+ inlined decap_*, walker, Label::new, Extension::new ...)
     a = ck.analyse(DEC + 'decap', decap_cfg(f))
     n = ck.count_obligations(a.obligations(), 'C05.R1')
-    ck.rule('C05.R1 panic-freedom of decap (abstract interpretation)', n, 100)
+    ck.rule('C05.R1 panic-freedom of decap (abstract interpretation)', n, 60)
     reached = a.I.stats['functions']
     for need in ('decap_complete', 'decap_first', 'decap_intermediate', 'decap_end', 'iterate_over_extension_header', 'read_gse_header'):
         if not any(short(x) == need for x in reached):
@@ -15,14 +15,14 @@ def run(ck):
     # R4: the peek
     p = ck.analyse(DEC + 'get_label_or_frag_id', {'kslots': 2})
     n = ck.count_obligations(p.obligations(), 'C05.R4')
-    ck.rule('C05.R4 panic-freedom of get_label_or_frag_id', n, 12)
+    ck.rule('C05.R4 panic-freedom of get_label_or_frag_id', n, 6)
     # R2: bundled memory, with its struct invariant
     inv = mem_invariant(f)
     tot = 0
     for m in ('provision_storage', 'new_pdu', 'new_frag', 'take_frag', 'save_frag'):
         am = ck.analyse(MEM + m, {'kslots': 4}, assume=inv)
         tot += ck.count_obligations(am.obligations(), 'C05.R2')
-    ck.rule('C05.R2 panic-freedom of SimpleGseMemory methods', tot, 6)
+    ck.rule('C05.R2 panic-freedom of SimpleGseMemory methods', tot, 3)
     # R3: consumed length
     buf = a.arg('buffer')
     blen = buf[3]
